@@ -5568,7 +5568,8 @@ class CodegenCtx:
             if chr(i) in ["\\", '"']:
                 result += "\\" + chr(i)
             elif not (32 <= i < 127):
-                result += "\\x{:02x}".format(i)
+                # (three-digit octal: a hex escape would swallow any hex digit characters that follow it)
+                result += "\\{:03o}".format(i)
             else:
                 result += chr(i)
         return result
